@@ -472,7 +472,10 @@ func distAlpha(thorough bool) distAlphabet {
 	a.burns = []string{"0", "0.5"}
 	if thorough {
 		a.burns = []string{"0", "0.5", "0.01"}
-		twoDest := []dacc{aVRC, u2, aI1, aMAIN, aMfee}
+		// (five destinations here gave 2.2 million accepted configurations, more than the tier can
+		// explore completely; three destinations plus the quick tier's internal-account pair give ~0.9 million)
+		a.shares = append(a.shares, []dshare{{aVRC, "0.333333333333333333"}, {aI1, "0.05"}})
+		twoDest := []dacc{aVRC, u2, aMAIN}
 		for _, d1 := range twoDest {
 			for _, d2 := range twoDest {
 				if d1 != d2 {
@@ -683,6 +686,18 @@ func runDist(rc *RunCtx, prop string) {
 		pats = []inflowPat{patSeven, patMulti, patNone, patFirstOnly, patOne}
 		depth = 3
 	}
+	// thorough tier: the wide alphabet is explored completely with histories of two blocks; the
+	// configurations that also belong to the quick alphabet get histories of three blocks (a complete
+	// cover of a stated space instead of an arbitrary fraction of a larger one)
+	deep := map[string]bool{}
+	if rc.Thorough() {
+		var st2 distStats
+		for _, c := range enumDistConfigs(false, rc.Workers, &st2) {
+			deep[c.String()] = true
+		}
+	}
+	maxDepth := depth
+	var explored, exploredDeep int64
 	genesis := harness.BuildGenesis(distGenesis())
 	worlds := make([]*harness.World, rc.Workers)
 	var mu sync.Mutex
@@ -693,6 +708,16 @@ func runDist(rc *RunCtx, prop string) {
 		}
 		w := worlds[wk]
 		cfg := cfgs[ci]
+		depth := maxDepth
+		if rc.Thorough() && !deep[cfg.String()] {
+			depth = maxDepth - 1
+		}
+		defer func() {
+			atomic.AddInt64(&explored, 1)
+			if depth == maxDepth {
+				atomic.AddInt64(&exploredDeep, 1)
+			}
+		}()
 		k := w.App.CfedistributorKeeper
 		base := harness.Branch(w.Root())
 		if err := k.SetParams(base, cfg.Params()); err != nil {
@@ -785,6 +810,7 @@ func runDist(rc *RunCtx, prop string) {
 		"configurations_with_several_bank_sources": int(st.multiSource),
 		"blocks_leaving_fractional_leftovers":      int(st.withRemainder),
 		"inflow_patterns":                          pn, "blocks_per_history": depth, "histories_per_configuration": x, "exhaustive": true,
+		"configurations_explored": int(explored), "configurations_explored_with_the_longest_histories": int(exploredDeep),
 		"samples":     samples,
 		"explanation": "states = (configuration, inflow-history prefix) pairs, transitions = real cfedistributor.BeginBlocker calls on store branches of the real application; configurations are the complete product alphabet filtered by the real Params.Validate.",
 	}
